@@ -43,6 +43,16 @@ def globToJson (g : Glob) : Json :=
     ("molecules", strs g.molecules),
     ("mol_idx", Json.arr (g.molIdx.map fun (k, v) => Json.arr #[Json.str k, Json.arr (v.map toJson).toArray]).toArray)]
 
+/-- a classified raw line (`classify`): `null` = skipped by the reader -/
+def lineToJson (l : Option Line) : Json :=
+  match l with
+  | none => Json.null
+  | some (.header n) => Json.arr #[Json.str "header", Json.str n]
+  | some .badHeader => Json.arr #[Json.str "badHeader"]
+  | some .star => Json.arr #[Json.str "star"]
+  | some (.pragma t) => Json.arr #[Json.str "pragma", strs t]
+  | some (.content t) => Json.arr #[Json.str "content", strs t]
+
 def result (r : Except String Glob) : Json :=
   match r with
   | .ok g => okJson [("top", globToJson g)]
@@ -79,6 +89,10 @@ def handle (j : Json) : Except String Json := do
   | "tokenize" =>
     let lines ← strList (← j.getObjVal? "lines")
     pure (okJson [("tokens", Json.arr (lines.map fun l => strs (tokenize l)).toArray)])
+  | "classify" =>
+    -- `LineParser.parse` (comment, strip, skip) + `TOPDirector.dispatch` + the name `parse_header` computes
+    let lines ← strList (← j.getObjVal? "lines")
+    pure (okJson [("kinds", Json.arr (lines.map fun l => lineToJson (classify l)).toArray)])
   | _ => throw s!"unknown op {op}"
 
 end PolyplyVerif.Driver.C08
